@@ -430,7 +430,7 @@ class C14(PropBase):
             st = rng.below(6)
             if st <= 3 and mems:
                 b, s = rng.choice(mems)
-                v = b + rng.choice([0, 0, 8, 16, max(0, s - 8), max(0, s - 4), s, max(0, s - 16), 24])
+                v = b + rng.choice([0, 0, 8, 16, max(0, s - 8), max(0, s - 4), s, max(0, s - 16), 24, max(0, s - 6), max(0, s - 1), max(0, s - 7)])
             elif st == 4:
                 v = rng.choice([0, 8, U32 - 7, U64 - 7, U64])
             else:
